@@ -76,6 +76,31 @@ FIXED_TUPLES = [
 ]
 
 
+# W6: pinned programs with helper functions (procedure, value-returning helpers of every type, a helper calling an earlier one, calls in
+# nested blocks and in the main loop, locals declared at the top level of the body, loops and `break` inside a body)
+FIXED_HELPERS = [
+    {"helpers": [
+        {"name": "shout", "params": [("v", "int")], "body": [("wr", V("v")), ("sl", I(5))], "ret": None, "rty": None},
+        {"name": "scale", "params": [("v", "int"), ("flag", "bool")],
+         "body": [("as", "t", ("bin", "mul", V("v"), I(2))), ("if", V("flag"), [("as", "t", ("bin", "add", V("t"), I(1)))], []),
+                  ("as", "k", I(0)), ("while", ("cmp", "lt", V("k"), I(2)), [("aug", "t", "add", V("k")), ("aug", "k", "add", I(1))]),
+                  ("call", None, "shout", [V("t")])], "ret": V("t"), "rty": "int"},
+        {"name": "lab", "params": [("z", "string"), ("n", "int")], "body": [("as", "r", ("bin", "add", V("z"), ("str", V("n"))))], "ret": V("r"), "rty": "string"},
+        {"name": "big", "params": [("n", "int")], "body": [("as", "g", ("cmp", "gt", V("n"), I(20)))], "ret": ("or", V("g"), ("cmp", "lt", V("n"), I(0))), "rty": "bool"}],
+     "pre": [("as", "a", I(0)), ("as", "p", ("b", False)), ("as", "s", ("s", "a")), ("call", "a", "scale", [I(4), ("b", True)]), ("call", None, "shout", [V("a")]),
+             ("call", "s", "lab", [("s", "q"), V("a")]), ("wr", V("s")), ("call", "p", "big", [V("a")]),
+             ("if", V("p"), [("call", None, "shout", [I(1)])], [("call", "a", "scale", [V("a"), V("p")])])],
+     "loop": [("call", "a", "scale", [V("a"), ("b", False)]), ("call", None, "scale", [I(1), ("b", True)]), ("call", "p", "big", [V("a")]),
+              ("for", "i1", I(2), [("call", None, "shout", [("bin", "add", V("i1"), I(0))])])]},
+    {"helpers": [
+        {"name": "count", "params": [("n", "int"), ("stop", "int")],
+         "body": [("as", "acc", I(0)), ("for", "j1", V("n"), [("if", ("cmp", "eq", V("j1"), V("stop")), [("brk",)], []), ("aug", "acc", "add", V("j1")), ("wr", V("acc"))])],
+         "ret": ("bin", "add", V("acc"), I(100)), "rty": "int"}],
+     "pre": [("as", "a", I(3)), ("call", "a", "count", [I(5), V("a")]), ("wr", V("a")), ("call", None, "count", [I(2), I(9)])],
+     "loop": None},
+]
+
+
 def ev_str(evs):
     return ",".join(("w" + str(v)) if k == "w" else ("d" + str(int(v))) for k, v in evs)
 
@@ -479,6 +504,12 @@ def run(ctx: Ctx) -> int:
     # conditions written as chained comparisons (`a < b <= c`): the model is given the conjunction they abbreviate, so T is skipped for them
     progs += [langgen.G(rng, max_depth=rng.choice([2, 3]), chains=True, strings=True).program() for _ in range(ctx.n(50, 600))]
     progs += FIXED_TUPLES
+    # W6: programs with helper functions (a PRNG of their own: the streams above are unchanged).  The model translates and runs them
+    # (T, S_py, S_c below); `InF` does not admit calls yet, so the theorem does not speak about them (driver answers "out")
+    import random as _random
+    hr = _random.Random(f"{ctx.seed}:C01:helpers")
+    progs += FIXED_HELPERS
+    progs += [langgen.add_helpers(langgen.G(hr, max_depth=hr.choice([1, 2, 3]), strings=True).program(), hr) for _ in range(ctx.n(60, 1200))]
     n_plain = len(progs) + 1
     # every top-level `break` directly in the main loop must be rejected (through if nesting too)
     progs.append({"pre": [("as", "a", ("i", 1))], "loop": [("wr", ("v", "a")), ("if", ("cmp", "gt", ("v", "a"), ("i", 0)), [("brk",)], [])]})
@@ -504,7 +535,14 @@ def run(ctx: Ctx) -> int:
         if "(tup " in sx:
             ctx.count("programs-using:tuple-assignment")
             ctx.count("tuple-assignments", sx.count("(tup "))
-        if t.startswith("ok") and not t.endswith(" in"):
+        if p.get("helpers"):
+            ctx.count("programs-with-helpers")
+            ctx.count("helper-definitions", len(p["helpers"]))
+            ctx.count("helper-calls", sx.count("(call "))
+            ctx.count("helper-calls-with-target", sx.count("(call ") - sx.count("(call _ "))
+            if t.startswith("ok") and not t.endswith(" out"):
+                ctx.tie_diff("W6 increment 1: InF does not admit calls", {"script": src}, t[-4:], "out")
+        elif t.startswith("ok") and not t.endswith(" in"):
             ctx.tie_diff("generator invariant (generated programs are in InF / promotion programs in InF2)", {"script": src}, t[-4:], "")
         if "(s x" in sx:
             ctx.count("programs-using:strings")
